@@ -126,6 +126,7 @@ type Contracts struct {
 	TypeInvs  []*FieldInv
 	Callers   []*CallersOnly
 	GhostVars map[string]string
+	Monotone  map[string]bool // ghostvar <name> monotone
 	GhostFields map[string]string
 	Unfolds   map[string]*SpecFunc
 	Funcs   map[string]*FuncContract
@@ -138,7 +139,7 @@ type Contracts struct {
 }
 
 func NewContracts() *Contracts {
-	return &Contracts{Funcs: map[string]*FuncContract{}, Specs: map[string]*SpecFunc{}, Ghosts: map[string]*GhostFunc{}, GhostVars: map[string]string{}, GhostFields: map[string]string{}, Unfolds: map[string]*SpecFunc{}}
+	return &Contracts{Funcs: map[string]*FuncContract{}, Specs: map[string]*SpecFunc{}, Ghosts: map[string]*GhostFunc{}, GhostVars: map[string]string{}, Monotone: map[string]bool{}, GhostFields: map[string]string{}, Unfolds: map[string]*SpecFunc{}}
 }
 
 var clauseHead = regexp.MustCompile(`^(requires|ensures|invariant|decreases)(\[[A-Z0-9, ]+\])?\s+(?:([A-Za-z_][A-Za-z0-9_.\-]*):\s+)?(.*)$`)
@@ -407,6 +408,12 @@ func (cs *Contracts) LoadLines(pkg string, lines []string, wheres []string) erro
 			_ = srt
 			if fields[2] == "bool" {
 				cs.GhostVars[fields[1]] = "Bool"
+			} else if fields[2] == "monotone" {
+				// an integer ghost variable that only grows, and only through contracts that list
+				// it: every function may change it (no frame obligation), every call leaves it
+				// at least as large as it was
+				cs.GhostVars[fields[1]] = "Int"
+				cs.Monotone[fields[1]] = true
 			} else {
 				cs.GhostVars[fields[1]] = "Int"
 			}
